@@ -119,7 +119,9 @@ def run_unit(template, src_root='/repo', workdir=None, timeout=600, threads=8, w
             return res
         res['extracted'] = metas
         res['literals'] = lits
-        r = run_verus(gen_path, timeout, threads)
+        plain = '//@plain-nl' in open(template).read()
+        res['nl_config'] = "verus' own nonlinear options" if plain else 'tools/z3wrap.sh (smt.arith.nl)'
+        r = run_verus(gen_path, timeout, threads, plain=plain)
         gen_lines = open(gen_path).read().split('\n')
         res['stderr_tail'] = r['stderr'][-6000:]
         if r['timeout']:
@@ -207,7 +209,7 @@ def run_unit(template, src_root='/repo', workdir=None, timeout=600, threads=8, w
         if with_vacuity and res['status'] == 'ok':
             vpath = os.path.join(workdir, unit + '_vac.rs')
             vmetas, _ = vgen.generate(template, src_root, vpath, vacuity=True)
-            rv = run_verus(vpath, timeout, threads)
+            rv = run_verus(vpath, timeout, threads, plain=plain)
             vlines = open(vpath).read().split('\n')
             failed_probe = set()
             other = []
